@@ -609,6 +609,14 @@ def oracle_passes(cases, impl):
             if what:
                 out.append(fail("C02", info, line, what + " (action %d)" % idx, "passes"))
                 break
+        else:
+            # a stream of valid parameters that breaks off with an exception: the forward never reaches EndForward, or an adjoint
+            # calculation stops above step 0 -- steps that are never reversed
+            if in_domain(info) and any(o.startswith("r") for o in info["ops"]):
+                exc = next(((i, o) for i, (k, o, _) in enumerate(parse_line(l) for l in tr if l.startswith("N ")) if o.startswith("EXC")), None)
+                if exc is not None:
+                    where = "before EndForward" if not seen_ef else ("in adjoint calculation %d with the adjoint at step %s: steps below it are never reversed" % (npass + 1, pos))
+                    out.append(fail("C02", info, line, "%s %s (request %d)" % (exc[1], where, exc[0]), "broken_off"))
     return out
 
 
